@@ -454,10 +454,10 @@ Proof.
   intros W H. destruct b; [now destruct (ce_insert_spec _ _ _ W H) | now destruct (ce_replace_spec _ _ _ W H)].
 Qed.
 
-Lemma selecting_select_inv s pg act sel n s' t pg' sel' : SInv s -> sel_inv sel ->
-  selecting_select dops sops s pg act sel n = Ok (s', t, pg', sel') -> SInv s' /\ trans_inv t /\ sel_inv sel'.
+Lemma selecting_select_offset_inv s pg act sel n s' t pg' sel' : SInv s -> sel_inv sel ->
+  selecting_select_offset dops sops s pg act sel n = Ok (s', t, pg', sel') -> SInv s' /\ trans_inv t /\ sel_inv sel'.
 Proof.
-  intros I Hsel H. unfold selecting_select in H. destruct sel as [p|y|sym0].
+  intros I Hsel H. unfold selecting_select_offset in H. destruct sel as [p|y|sym0].
   - bind_ok H cands Hc. destruct (nth_error cands _) as [text|].
     + bind_ok H c1 H1. inv_ok H. split; [|split; [exact Logic.I | exact Hsel]].
       destruct I as [W Dk]. cbn in Hsel.
@@ -465,17 +465,23 @@ Proof.
       constructor; cbn; [|assumption].
       destruct (o_auto_shift (opts s)); [apply ce_right_wf|]; apply ce_pop_cursor_wf; assumption.
     + inv_ok H. split; [assumption | split; [exact Logic.I | exact Hsel]].
-  - bind_ok H r Hr. destruct r as [y' res]. destruct res as [sym|].
+  - destruct (Nat.leb _ _); [inv_ok H; split; [assumption | split; exact Logic.I]|].
+    bind_ok H r Hr. destruct r as [y' res]. destruct res as [sym|].
     + bind_ok H c1 H1. inv_ok H. split; [|split; exact Logic.I].
       destruct I as [W Dk]. constructor; cbn; [|assumption].
       apply ce_pop_cursor_wf. eapply ce_insert_or_replace_wf; eassumption.
     + inv_ok H. split; [assumption | split; exact Logic.I].
-  - bind_ok H res Hr. destruct res as [sym|].
+  - bind_ok H m Hm. destruct (Nat.leb _ _); [inv_ok H; split; [assumption | split; exact Logic.I]|].
+    bind_ok H res Hr. destruct res as [sym|].
     + bind_ok H c1 H1. inv_ok H. split; [|split; exact Logic.I].
       destruct I as [W Dk]. constructor; cbn; [|assumption].
       apply ce_pop_cursor_wf. eapply ce_insert_or_replace_wf; eassumption.
     + inv_ok H. split; [assumption | split; exact Logic.I].
 Qed.
+
+Lemma selecting_select_inv s pg act sel n s' t pg' sel' : SInv s -> sel_inv sel ->
+  selecting_select dops sops s pg act sel n = Ok (s', t, pg', sel') -> SInv s' /\ trans_inv t /\ sel_inv sel'.
+Proof. unfold selecting_select. apply selecting_select_offset_inv. Qed.
 
 Lemma reselect_at_cursor_inv s sel : SInv s -> reselect_at_cursor dops s = Ok sel -> sel_inv sel.
 Proof.
@@ -582,7 +588,7 @@ Theorem ed_select_inv e n e' b : Inv e -> ed_select dops sops conv e n = Ok (e',
 Proof.
   intros [Ish Ist] H. unfold ed_select in H. destruct (st e) as [| |pg act sel|mv] eqn:Est; try (inv_ok H; constructor; [assumption | now rewrite Est]).
   bind_ok H r Hr. destruct r as [[[s2 t] pg'] sel']. cbn in Ist.
-  destruct (selecting_select_inv _ _ _ _ _ _ _ _ _ Ish Ist Hr) as (I2 & T2 & S2).
+  destruct (selecting_select_offset_inv _ _ _ _ _ _ _ _ _ Ish Ist Hr) as (I2 & T2 & S2).
   destruct (apply_transition s2 (Selecting pg' act sel') t) as [s3 st3] eqn:Ea.
   destruct (apply_transition_inv _ _ _ _ _ I2 (S2 : state_inv (Selecting pg' act sel')) T2 Ea) as (I3 & S3).
   bind_ok H s4 H4. inv_ok H. constructor; cbn [sh st]; [|assumption].
